@@ -541,3 +541,31 @@ def c09(rec):
                                           f"|cause={c}",
                                 msg=f"task {key} of a racing caller ended as {f[:3]}"))
     return out, _cls(rec) + (next_id,)
+
+
+# ---- C18 (simulation part): every worker that runs a task ran the initializer first --------
+def c18(rec):
+    v, _ = O.termination(rec)
+    out = []
+    c = O.cause(rec)
+    init = rec.prog.get("pool", {}).get("init")
+    inited = set()
+    for ev in rec.log:
+        if ev[0] == "init":
+            inited.add(ev[1])
+        elif ev[0] == "body" and init and ev[1] not in inited:
+            out.append(dict(signature=f"C18:task-in-uninitialised-worker|cause={c}",
+                            msg=f"{ev[1]} ran task {ev[2]} without having run the configured "
+                                f"initializer (log: {rec.log[:12]})"))
+            break
+    if init == "fail" and not v:
+        ran = [ev for ev in rec.log if ev[0] == "body"]
+        if ran:
+            out.append(dict(signature=f"C18:task-after-failed-initializer|cause={c}",
+                            msg=f"tasks ran although the initializer failed: {ran[:4]}"))
+        if not any(e["broken"] for e in rec.execs) and rec.fut:
+            out.append(dict(signature=f"C18:init-failure-not-broken|cause={c}",
+                            msg="the initializer failed but the pool was not flagged broken"))
+    if init and any(ev[0] == "init" and ev[2] != "I" and ev[2] != "I2" for ev in rec.log):
+        out.append(dict(signature=f"C18:initargs-wrong|cause={c}", msg=f"{rec.log[:6]}"))
+    return out, _cls(rec) + (len(inited),)
